@@ -395,7 +395,8 @@ func runForgetRace(sec *vh.Section, nb int) {
 	}
 }
 
-// runReorderRace is the deterministic replay of finding F85: two writers of one partition; the journal orders their records
+// runReorderRace is the REGRESSION program of the repaired finding F85 (fix f6d29cf: onWrite ignores a late notification and
+// never lowers Recs; the program must pass, a loss is tagged F85 = the defect is back). What it replayed: two writers of one partition; the journal orders their records
 // (batch B before batch C) but the time-index notifications arrive in the other order. The late notification of B is merged
 // into the tree behind C's point: block.addInterval keeps p1.ts = max(B.max, last.ts) = C's maximum but takes p1.idx = B's last
 // record, so the last index point says "timestamp C.max at position B.last" and drops C's own point; lastRec and Recs go DOWN.
@@ -492,8 +493,9 @@ func (failChunk) Iterator() (chunk.Iterator, error) {
 	return nil, fmt.Errorf("verif: injected read error")
 }
 
-// runLightFillFailure is the deterministic replay of finding F86 (placeholder id; lead "a failed lightFill leaves the hull
-// [MaxInt64, 0]"). Crash image (no snapshot entry); the first SyncChunks cannot read the chunk's records: the chunk's
+// runLightFillFailure is the REGRESSION program of the repaired finding F86 (fix 719d554: the second apply() hands what
+// lightFill has read now to a known entry with Recs = 0; the program must pass, a loss is tagged F86 = the defect is back).
+// What it replayed (lead "a failed lightFill leaves the hull [MaxInt64, 0]"): Crash image (no snapshot entry); the first SyncChunks cannot read the chunk's records: the chunk's
 // Iterator() fails (an I/O error, e.g. no file descriptor left; a cancelled context does NOT make lightFill fail). The entry
 // then carries [MaxInt64, 0] with Recs = 0, and it STAYS so: later SyncChunks read the two records again but syncChunks'
 // second apply() puts the known entry back over the filled one. While count > Recs the repair a7caf30 keeps the window open
